@@ -9,6 +9,7 @@
 //!   membuild <threads>             mem RevIndex::new_with_sigs in a pool -> `H <h:ids;…>` (per-hash probes)
 //!   extend <split> direct|reopen <threads> <seed>   create(C[..split]) then update(C) -> scan
 //!   reject <split> <k> hashes|name create(C[..split]) then update(C with record k changed) -> `err …`
+//!   rejectperm <split> front|swap  create(C[..split]) then update(new record in front | first two swapped) -> `err …`
 //!   truncate <split> <m>           create(C[..split]) then update(C[..m]), m < split -> scan
 //!   reduce <polish tree>           N = node, I = identity, L<d> = leaf; h2c_* wrappers -> `<h:ids;…> cols=ok|bad`
 //!   mergedb <tokens>               real merge operator through a scratch RocksDB: P<ids> put (first
@@ -293,6 +294,11 @@ fn gen(a: &Args) {
             let kind = if r.chance(1, 2) { "hashes" } else { "name" };
             o.op(&format!("reject {} {} {}", split, k, kind));
         }
+        if nd >= 2 && ci % 2 == 0 {
+            // every indexed record is still present, but not at the front: must be rejected too
+            let split = r.range(2, nd as u64);
+            o.op(&format!("rejectperm {} {}", split, if r.chance(1, 2) { "front" } else { "swap" }));
+        }
         if nd >= 2 && ci % 4 == 2 {
             let split = r.range(2, nd as u64);
             let m = r.range(1, split - 1);
@@ -524,7 +530,7 @@ fn step(st: &mut St, ws: &[&str]) -> String {
                 Err(e) => format!("err {:?}", e),
             }
         }
-        "extend" | "reject" | "truncate" => {
+        "extend" | "reject" | "rejectperm" | "truncate" => {
             let split: usize = ws[1].parse().unwrap();
             let tmp = scratch_dir();
             let mut sigs = sigs_of(&st.coll);
@@ -539,6 +545,15 @@ fn step(st: &mut St, ws: &[&str]) -> String {
             let newcoll = match ws[0] {
                 "extend" => fs_collection(&paths),
                 "truncate" => fs_collection(&paths[..ws[2].parse::<usize>().unwrap()]),
+                "rejectperm" => {
+                    if ws[2] == "front" {
+                        sigs.insert(0, make_sig("front", &[999_983], None, 1));
+                    } else {
+                        sigs.swap(0, 1);
+                    }
+                    let p2 = write_sig_files(&tmp.path().join("sigs2"), &sigs);
+                    fs_collection(&p2)
+                }
                 _ => {
                     let k: usize = ws[2].parse().unwrap();
                     sigs[k] = if ws[3] == "hashes" {
